@@ -233,8 +233,9 @@ def run(ctx):
            f'the code {"raises" if raised else "does not raise"}', ctx.loc(fq), sample=f'rank {nd}, diag={ed}: {"ValueError" if must_raise else "ok"}')
 
   # from_float_value
-  for dt, ed in itertools.product(['float32', 'int8'], [False, True]):
-    ev = evaluator(m, decide=_decider(), opaque={'quantize'})
+  for dt, ed, ndim_cmp in itertools.product(['float32', 'int8'], [False, True], [False, True]):
+    # (any test on the rank of the input is decided both ways: the value quantized is the input itself for every rank)
+    ev = evaluator(m, decide=Decider(extra=lambda c, v=ndim_cmp: v if (c.op == 'cmp' and 'ndim' in show(c, maxdepth=5)) else None), opaque={'quantize'})
     V = sym('param', ff.short, 'fvalue')
     r = ev.run(ff, args={'quantized_dtype': ext('jax.numpy.' + dt), 'extract_diagonal': const(ed)})
     # isinstance(fvalue, list) undecided -> ite(empty case, normal case)
@@ -253,11 +254,52 @@ def run(ctx):
       ok = ok and shp.op == 'call' and shp.args[0].op == 'builtin' and shp.args[0].args[0] == 'list' and path_str(shp.args[1][0]) is None and 'shape' in show(shp, maxdepth=4)
       fe = rec_fields(empt[0])
       ok = ok and all(fe[k].op == 'list' and not fe[k].args for k in ('quantized', 'diagonal', 'bucket_size', 'shape'))
-    ctx.ob('C11.Q5', ff.short, f'from_float_value record [{dt},diag={ed}]', ok,
+    ctx.ob('C11.Q5', ff.short, f'from_float_value record [{dt},diag={ed},rank test={int(ndim_cmp)}]', ok,
            'from_float_value must record quantize(fvalue, dtype, flag) as (payload, diagonal, bucket), the dtype, the flag and list(payload.shape); [] maps to an all-empty record',
            ctx.loc(ff), sample='QuantizedValue(q, d, b, dtype, flag, list(q.shape))')
 
   rewrap_sites(ctx)
+  statistics_callbacks(ctx)
+
+
+def statistics_callbacks(ctx):
+  """Q7: the dequantize / re-quantize callbacks `_compute_stats` hands to the statistics update are the plain conversions:
+  `to_float(q)` is the dequantized value of q and `from_float(x)` quantizes x ITSELF (a callback that adds a ridge, symmetrises
+  or rescales before quantizing is applied again on every dequantize - update - quantize cycle: carried state drifts)."""
+  from ..lib import method_name, econd_summary
+  m = ctx.model
+  fi = m.func(MOD, 'distributed_shampoo._compute_stats')
+  ctx.analysed(fi)
+  for qstat in (True, False):
+    ev = evaluator(m, decide=Decider(calls={('_skip_preconditioning',): False}, extra=lambda c, q=qstat: (q if (c.op == 'cmp' and c.args[0] in ('!=', '==') and
+                   'float32' in show(c, maxdepth=4)) and c.args[0] == '!=' else ((not q) if (c.op == 'cmp' and c.args[0] == '==' and 'float32' in show(c, maxdepth=4)) else None))),
+                   opaque={'preconditioner_from_params', '_skip_preconditioning', '_maybe_quantize_statistics', '_to_float', '_maybe_quantize_matrices_with_dtype'},
+                   summaries={'efficient_cond': econd_summary})
+    r = ev.run(fi)
+    ctx.evaluations += 1
+    calls = list(dict.fromkeys(x for x in walk(r) if x.op == 'call' and method_name(x) == 'updated_statistics_from_grad'))
+    ctx.need('C11.Q7', len(calls), 1, 'statistics update call in _compute_stats')
+    X = sym('spec', 'matrix')
+    for c in calls:
+      kw = dict(c.args[2])
+      ff_, tf_ = kw.get('from_float'), kw.get('to_float')
+      okf = False
+      got = NONE
+      if ff_ is not None and ff_.op in ('closure', 'partial', 'bound', 'fn'):
+        got = ev.call(ff_, [X], {}, None, None)
+        # quantize([x])[0]
+        okf = got.op == 'sub' and is_const(got.args[1], 0) and got.args[0].op == 'call' and fn_name(got.args[0]) in ('_maybe_quantize_statistics', '_maybe_quantize_matrices_with_dtype') and \
+            got.args[0].args[1] and got.args[0].args[1][0].op == 'list' and len(got.args[0].args[1][0].args) == 1 and got.args[0].args[1][0].args[0] is X
+      ctx.ob('C11.Q7', fi.short, f'from_float(x) quantizes x itself [quantized statistics={int(qstat)}]', okf,
+             f'the re-quantize callback of the statistics update must be x -> _maybe_quantize_statistics([x])[0]; applied to x it gives `{show(got, maxdepth=5)[:200]}`',
+             ctx.loc(fi), sample='from_float = lambda x: _maybe_quantize_statistics([x])[0]')
+      okt = False
+      gott = NONE
+      if tf_ is not None:
+        gott = ev.call(tf_, [X], {}, None, None) if tf_.op in ('closure', 'partial', 'bound', 'fn') else NONE
+        okt = gott.op == 'call' and fn_name(gott) == '_to_float' and len(gott.args[1]) == 1 and gott.args[1][0] is X
+      ctx.ob('C11.Q7', fi.short, f'to_float(q) is the plain dequantization [quantized statistics={int(qstat)}]', okt,
+             f'the dequantize callback of the statistics update must be _to_float; applied to q it gives `{show(gott, maxdepth=5)[:160]}`', ctx.loc(fi), sample='to_float = _to_float')
 
 
 def rewrap_sites(ctx):
